@@ -55,6 +55,17 @@ theorem alloc_result (s : State) (k sz id : Nat) (blk : Blk) (hres : (step s (Op
     obtain ⟨f1, f2, f3, f4, _⟩ := bufResized_fields s i sz
     simp only [allocBuffer, addFrame, f1, f2, f3, f4]
     fin_tac
+  | static sp a =>
+    simp only [hp] at hres ⊢
+    split at hres
+    · cases hres
+    · rename_i hrej
+      simp only [hrej]
+      injection hres with h1 h2; subst h1; subst h2
+      simp only [allocStatic, addFrame]
+      by_cases hf : need s.cfg sz ≤ sp
+      · simp only [hf, if_true]; fin_tac
+      · simp only [hf, if_false]; fin_tac
 
 theorem stepFree_sstate (s : State) (id : Nat) :
     (stepFree s id).1.sstate = s.sstate ∧ (stepFree s id).1.objs = s.objs ∧ (stepFree s id).1.cfg = s.cfg := by
@@ -124,15 +135,16 @@ theorem reachable_cfg {c : Cfg} {s : State} (h : Reachable c s) : s.cfg = c := b
   obtain ⟨ops, rfl⟩ := h
   exact run_cfg (init c) ops
 
-theorem capBytes_mono_run {s : State} (hc : CfgOK s.cfg) (h : Inv s) (ops : List Op) (hnd : Op.destroy ∉ ops)
+theorem capBytes_mono_run {s : State} (hc : CfgOK s.cfg) (h : Inv s) (ops : List Op)
+    (hnd : Op.destroy ∉ ops ∧ Op.swapobj ∉ ops)
     (hok : (run s ops).ok = true) : capBytes s ≤ capBytes (run s ops) := by
   induction ops generalizing s with
   | nil => exact Nat.le_refl _
   | cons op ops ih =>
     have hok1 : (step s op).1.ok = true := run_ok_mono _ ops hok
-    have h1 := capBytes_mono_step s hc h.mem.vsize_le op (fun e => hnd (by simp [e]))
+    have h1 := capBytes_mono_step s hc h.mem.vsize_le op ⟨fun e => hnd.1 (by simp [e]), fun e => hnd.2 (by simp [e])⟩
     have h2 := ih (s := (step s op).1) (by rw [step_cfg]; exact hc) (inv_step hc h op hok1)
-      (fun e => hnd (List.mem_cons_of_mem _ e)) hok
+      ⟨fun e => hnd.1 (List.mem_cons_of_mem _ e), fun e => hnd.2 (List.mem_cons_of_mem _ e)⟩ hok
     exact Nat.le_trans h1 h2
 
 end Cocls.Storage
